@@ -198,6 +198,34 @@ def conj(ctx, col):
     if tm is None:
         col.unresolved("R-CONJ", d.qualname, d.loc(root_arm.body[0]), "conjugation", "no `tm = ...` in the root arm")
         return
+    # by value first: the statements of the arm are evaluated over a symbolic stored matrix M = [[A, t], [0, 1]] and a symbolic centre c;
+    # the matrix handed to `apply` must be T(c) . M . T(-c) entry by entry (exact polynomials)
+    if conv == "column":
+        from .. import matsym
+        try:
+            ev = matsym.Eval({"self.tm": matsym.affine_symbol(), "xyz": matsym.Vec([matsym.S("c0"), matsym.S("c1"), matsym.S("c2")])})
+            body_ = [s_ for s_ in root_arm.body if not (isinstance(s_, ast.Assign) and len(s_.targets) == 1 and norm_src(s_.targets[0]) in ("idx", "xyz"))]
+            ev.run(body_)
+            got_m = ev.env.get("tm")
+            cvec = [matsym.S("c0"), matsym.S("c1"), matsym.S("c2")]
+            want_m = matsym.matmul(matsym.matmul(matsym.translate(cvec), matsym.affine_symbol()), matsym.translate([x_ * matsym.C(-1) for x_ in cvec]))
+            if isinstance(got_m, matsym.Mat) and got_m.shape == (4, 4) and ok:
+                same_m = matsym.same(got_m, want_m)
+                diff = []
+                if not same_m:
+                    for i_ in range(4):
+                        for j_ in range(4):
+                            if not got_m.rows[i_][j_].same(want_m.rows[i_][j_]):
+                                diff.append(f"[{i_}][{j_}] = {got_m.rows[i_][j_]} instead of {want_m.rows[i_][j_]}")
+                col.check(same_m, "R-CONJ", d.qualname, d.loc(tm), "the matrix applied about the root is T(+c) . M . T(-c), entry by entry (symbolic M and c)",
+                          "16 entries equal as polynomials", "the matrix built for centre = root is not the conjugate of the stored one: " + "; ".join(diff[:3])
+                          + " -- the stated map is not applied about the root (the centre moves, or a translation the matrix carries is lost)", stmt="conjugation", definite=True)
+                if dflt is not None:
+                    dsrc = [norm_src(s_) for s_ in dflt.body]
+                    col.check(dsrc == ["tm = self.tm"], "R-CONJ", d.qualname, d.loc(dflt), "centre = origin applies the stored matrix as it is", str(dsrc), f"default arm is {dsrc}", stmt="origin")
+                return
+        except matsym.Unsupported:
+            pass
     factors = product_factors(tm.value)
     kinds = [classify_factor(f, "xyz") for f in factors]
     want = ["T+", "M", "T-"] if conv == "column" else ["T-", "M", "T+"]
